@@ -52,6 +52,7 @@ def run(cx):
     r1(cx)
     r1_flag(cx, only=("is_oneway",))
     r1_ctor(cx)
+    r1_parsed_request(cx)
     r1_request_stable(cx)
     r2(cx)
 
@@ -250,6 +251,24 @@ def r1_ctor(cx):
         ok = any(k == "arg" and v == 2 for k, v in orig) and not any(k == "agg" for k, v in orig)
     cx.check(ok, "C04.R1", "varlink:Call::new:request-stored", body.sp, "Call::new does not store Some(request): the oneway/more flags of the request would be invisible to the reply writers",
              note_ok="Call.request = Some(request argument)")
+
+
+def r1_parsed_request(cx, rule="C04.R1"):
+    """the request a reply writer consults is the one that arrived: every Call built in handle() (helpers included) gets the parsed
+    request itself, not a copy rebuilt from some of its members (which would lose `oneway`/`more`)"""
+    from . import handle_common as hc
+    h = hc.analyse_handle(cx)
+    body, du = h.body, h.du
+    sl = Slice(body, du, extra_pass=("=as_ref", "=borrow", "=deref"))
+    news = [t for t in body.calls("=new") if "Call" in t.callee.path and len(t.args) >= 2]
+    for i, t in enumerate(news):
+        orig = sl.origins(t.args[1])
+        good = bool(orig) and all(k == "call" and o is h.from_slice for k, o in orig)
+        cx.check(good, rule, "varlink:handle:Call::new#%d:serves-the-parsed-request" % i, "%s %s" % (t.sp, body.path),
+                 "this Call is built around %s instead of the request that was parsed: the oneway/more flags of the peer's request are invisible to the reply writers (a oneway request gets answered)" %
+                 sorted({(str(o.callee)[:50] if k == "call" else k) for k, o in orig if not (k == "call" and o is h.from_slice)}),
+                 note_ok="Call::new(writer, &<parsed request>)")
+    cx.floor(rule, "Call::new sites in handle()", len(news), 1)
 
 
 def r1_request_stable(cx):
